@@ -29,6 +29,13 @@ func (c *Ctx) c16Lexer(rng *rand.Rand) {
 	c.Add("evaluations", int64(len(b.Cases)))
 	resets := c.pick(1, 2)
 	c.lexTraceCheck(b, inputs, resets, false, "C16 (lexer reuse after Reset)")
+	// Reset in mid-stream: after one, two and three Scan calls
+	for _, partial := range []int{1, 2, 3} {
+		if c.Quick() && partial == 3 {
+			continue
+		}
+		c.lexTraceCheckPartial(b, inputs, 1, partial, false, fmt.Sprintf("C16 (Reset after %d Scan calls)", partial))
+	}
 	mis := c.lexEndToEndMany(b.Cases, inputs, resets, true, b.Drv)
 	for i, ms := range mis {
 		if len(ms) > 0 {
